@@ -218,6 +218,8 @@ def main():
     c01_tasks.run(rac)
     from rac import eqvals
     eqvals.run(rac, "C01")
+    from rac import sametext
+    sametext.run(rac, "C01")
     rac.section("chains", "chains v[i+1] = v[i] + 1 of length N defined consumer-before-producer, then v[0] assigned",
                 "N in 50, 1500, 6000", exhaustive=False)
     import xdeps
